@@ -512,19 +512,19 @@ impl<'tcx> TyGenContext<'_, 'tcx> {
                     },
                     _ => unreachable!("AST/HIR variant {:?} unknown.", return_type),
                 };
-                // Add size for checking whether or not we're a pass/fail result. And we make sure to see if our error type is bigger, so if we need to add extra width based on that:
-                let size = std::cmp::max(
-                    layout.size(),
-                    match return_type {
-                        // We already account for an error in the Write match up above:
-                        ReturnType::Fallible(_, e) if e.is_some() => {
-                            crate::js::layout::type_size_alignment(&e.clone().unwrap(), self.tcx)
-                                .size()
-                        }
-                        _ => 0,
-                    },
-                ) + 1;
-                let align = layout.align();
+                // The buffer receives a `DiplomatResult<T, E>`: a union of both payloads, followed by the `is_ok` flag.
+                // The union is as large as the bigger payload rounded up to the stricter of the two alignments,
+                // which is also the alignment of the whole value.
+                let (err_size, err_align) = match return_type {
+                    ReturnType::Fallible(_, Some(e)) => {
+                        let err_layout = crate::js::layout::type_size_alignment(e, self.tcx);
+                        (err_layout.size(), err_layout.align())
+                    }
+                    _ => (0, 1),
+                };
+                let align = std::cmp::max(layout.align(), err_align);
+                // Add size for checking whether or not we're a pass/fail result (the flag is the last byte we allocate):
+                let size = std::cmp::max(layout.size(), err_size).next_multiple_of(align) + 1;
 
                 if requires_buf {
                     method_info.alloc_expressions.push(
